@@ -1,31 +1,273 @@
 package main
 
-// Translation of small pure functions into Lean do-notation (`Id.run do` with `let mut`): a
-// near-verbatim transliteration of straight-line Go with if statements.  The property files prove
-// the translation EQUAL to the hand-written model definition, so that the model is tied to the
-// source by proof, not only by testing.  Supported subset: `x := e`, `x = e`, `x += e` on
-// strings, `if c { ... } [else { ... }]`, `return e`; expressions: identifiers, string
-// literals, `+`, `==`, `!=`, `&&`, `||`, `!`, c.filename / c.extension / c.snapsDir, package string
-// constants, filepath.Base / filepath.Ext / strings.TrimSuffix / strings.ReplaceAll (one-byte pattern).
+// Tie by proof: translation of small Go functions into Lean do-notation.
+//
+// Every function listed in `funcSpecs` is re-read from the CURRENT source on every run and
+// transliterated statement by statement into `GoSnaps.Generated.Funcs.<name>`; the theorems
+// `<name>_tied` (lean/GoSnaps/Props/C11.lean for constructFilename, lean/GoSnaps/Props/Tie.lean for
+// the others) prove the transliteration equal to / precisely related to the hand-written model, so
+// a change of the Go function changes the generated Lean text and the proof has to be redone.
+// Anything outside the subset below makes the extractor FAIL (exit 2) with a message naming the
+// construct; nothing is ever defaulted.
+//
+// Representation of Go values
+//   string, []byte  -> List UInt8        (a []byte is modelled with cap = len)
+//   []string        -> List (List UInt8)
+//   int             -> Int               (unbounded: exact as long as no intermediate value leaves
+//                                         int64; the arithmetic of the translated functions is bounded
+//                                         by len(x)+3, a digit count, or start+1 / stop-start)
+//   byte, bool      -> UInt8, Bool       *Config -> GoSnaps.Cfg (fields filename/extension/snapsDir)
+//   (A, B) results  -> A × B             error -> Bool (`err != nil`), only ever discarded with `_`
+//
+// Panics.  A function that contains no operation that can panic is emitted as `Id.run do …` (a
+// total function).  A function containing one (index, slice, general index assignment,
+// strings.Repeat, or a call of such a function) is emitted in the Option monad (`… : Option T := do`):
+// `none` = the Go function panics (run-time error), `some v` = it returns v.  Partial operations
+// appear as nested actions `(← GoSem.index b i)`.  All panics are identified, so evaluation order
+// among strict operands is irrelevant; `&&` / `||` whose RIGHT operand can panic are translated to
+// `(← (do if L then pure R else pure false))` / `(← (do if L then pure true else pure R))`, which
+// evaluates R only when Go does (short circuit).
+//
+// Statement idioms -> Lean shape
+//   x := e                         let x := e        (`let mut` when x is assigned again later)
+//   x = e; x += e; x -= e; x++; x--                  x := e; x := x ++ e (strings) / x + e (int); …
+//   x, _ = f(a)   (also :=, `_, y`, `x, y`)          x := (f a).1   (projections of the pair)
+//   if c { A } else { B }, else-if chains            if c then A else B      (no init statement)
+//   return e / return e1, e2 (anywhere, also in loops)   return e / return (e1, e2)
+//   for i := lo; i < hi; i++ { B }                   for i in GoSem.intRange lo hi do B
+//        requires: B assigns neither i nor a variable occurring in hi (checked)
+//   for _, x := range xs { B }   ([]string only)     for x in xs do B
+//   for i, x := range xs { B }                       for (i, x) in GoSem.enum xs do B
+//   for i := range xs { B }                          for i in GoSem.intRange 0 (GoSem.len xs) do B
+//        Go evaluates xs once and reads element i when iteration i starts.  The translation iterates
+//        over the value xs has at loop entry; this is the same thing because B may modify xs only by
+//        `xs[i] = v` with i the loop's own index variable (which B must not assign) — checked.
+//   xs[i] = v   inside such a loop, same xs and i    xs := GoSem.setAt xs i v   (total: i is in range
+//                                                    by construction, len(xs) cannot change)
+//   xs[e] = v / xs[e] += v   elsewhere               xs := (← GoSem.setIndex xs e v)   (can panic)
+//        an index-assigned variable must be a local defined from a call (a fresh slice), must not be
+//        a parameter and must never be copied (`y := xs`, `y = xs[a:b]`): slices are modelled as
+//        values, so aliasing is excluded syntactically (checked).
+//   f := func(p T) (r R) { return e }                let f := fun (p : T) => e   (e total, no captures)
+//   break / continue (unlabelled)                    break / continue
+//
+// Expressions: identifiers, string / int / char literals, `+ - == != < <= > >= && || !`, unary `-`,
+// parentheses, `len(x)`, `x[i]`, `x[lo:hi]` (lo/hi optional), conversions string(x) / []byte(x)
+// (identity), c.filename / c.extension / c.snapsDir, package string constants, calls of previously
+// translated functions of the same package, and the library table `libTable` below (each Go library
+// function is mapped to the model primitive that the differential tests validate):
+//   filepath.Base/Ext/Dir/IsAbs/Join/Rel, strings.TrimSuffix, strings/bytes.HasPrefix,
+//   strings/bytes.Index (-1 = absent), strings.Split(s, "\n") -> lines, strings.Join(ss, "\n") ->
+//   unlines, strings.Split(s, sep)[0] -> GoSem.splitHead, strings.SplitAfter(s, "\n"),
+//   strings.ReplaceAll (one-byte pattern), strings.Repeat (panics on a negative count), strconv.Itoa.
+// Package state and opaque calls are made PARAMETERS per function (`funcSpecs`): the package
+// variable isTrimBathBuild -> `trimpath`, the call `baseCaller(3)` (exact text) -> `caller`,
+// `skippedTests.values` -> `skipped`, `regexp.MatchString` -> a function parameter, `colors.NOCOLOR`
+// -> `nocolor`.
 import (
+	"bytes"
 	"fmt"
 	"go/ast"
+	"go/printer"
 	"go/token"
+	"os"
 	"strconv"
 	"strings"
 )
 
-type ftr struct {
-	consts map[string]bool // package-level string constants available as Generated.<name>
-	muts   map[string]bool
-	err    error
+// ---------------------------------------------------------------------------------------------
+// types
+
+type ty struct {
+	k      string // text texts int bool byte cfg pair func
+	a, b   *ty    // pair components
+	params []*ty  // func
+	res    *ty    // func
 }
 
-func (t *ftr) fail(f string, a ...any) string {
+var (
+	tText  = &ty{k: "text"}
+	tTexts = &ty{k: "texts"}
+	tInt   = &ty{k: "int"}
+	tBool  = &ty{k: "bool"}
+	tByte  = &ty{k: "byte"}
+	tCfg   = &ty{k: "cfg"}
+	tBad   = &ty{k: "?"}
+)
+
+func pairOf(a, b *ty) *ty { return &ty{k: "pair", a: a, b: b} }
+func fnOf(res *ty, params ...*ty) *ty {
+	return &ty{k: "func", params: params, res: res}
+}
+
+func (t *ty) lean() string {
+	switch t.k {
+	case "text":
+		return "List UInt8"
+	case "texts":
+		return "List (List UInt8)"
+	case "int":
+		return "Int"
+	case "bool":
+		return "Bool"
+	case "byte":
+		return "UInt8"
+	case "cfg":
+		return "GoSnaps.Cfg"
+	case "pair":
+		return "(" + t.a.lean() + " × " + t.b.lean() + ")"
+	case "func":
+		var p []string
+		for _, x := range t.params {
+			p = append(p, x.lean())
+		}
+		return "(" + strings.Join(append(p, t.res.lean()), " → ") + ")"
+	}
+	return "?"
+}
+
+func (t *ty) eq(u *ty) bool {
+	if t.k != u.k {
+		return false
+	}
+	if t.k == "pair" {
+		return t.a.eq(u.a) && t.b.eq(u.b)
+	}
+	return t.k != "func" && t.k != "?"
+}
+
+// ---------------------------------------------------------------------------------------------
+// per-function specification: which package state / opaque calls become parameters
+
+type param struct {
+	name string
+	t    *ty
+}
+
+type funcSpec struct {
+	pkg     string           // "snaps" or "difflib"
+	name    string           // Go function
+	sig     string           // expected Go signature (parameters and results), checked
+	extra   []param          // leading parameters of the Lean definition
+	externs map[string]param // printed Go expression (variable, selector, or call with its exact arguments) -> parameter
+	extFns  map[string]param // callee -> function parameter
+}
+
+var funcSpecs = []funcSpec{
+	{pkg: "snaps", name: "constructFilename", sig: "c:*Config,callerFilename:string,tName:string,isStandalone:bool->string"},
+	{pkg: "snaps", name: "snapshotPath", sig: "c:*Config,tName:string,isStandalone:bool->string,string",
+		extra:   []param{{"trimpath", tBool}, {"caller", tText}},
+		externs: map[string]param{"isTrimBathBuild": {"trimpath", tBool}, "baseCaller(3)": {"caller", tText}}},
+	{pkg: "snaps", name: "escapeEndChars", sig: "s:string->string"},
+	{pkg: "snaps", name: "unescapeEndChars", sig: "s:string->string"},
+	{pkg: "snaps", name: "isNumber", sig: "b:[]byte->bool"},
+	{pkg: "snaps", name: "getTestID", sig: "b:[]byte->string,bool"},
+	{pkg: "snaps", name: "testSkipped", sig: "testID:string,runOnly:string->bool",
+		extra:   []param{{"regexpMatchString", fnOf(pairOf(tBool, tBool), tText, tText)}, {"skipped", tTexts}},
+		externs: map[string]param{"skippedTests.values": {"skipped", tTexts}},
+		extFns:  map[string]param{"regexp.MatchString": {"regexpMatchString", fnOf(pairOf(tBool, tBool), tText, tText)}}},
+	{pkg: "snaps", name: "isSingleline", sig: "s:string->bool"},
+	{pkg: "snaps", name: "shouldPrintHighlights", sig: "a:string,b:string->bool",
+		extra:   []param{{"nocolor", tBool}},
+		externs: map[string]param{"colors.NOCOLOR": {"nocolor", tBool}}},
+	{pkg: "snaps", name: "splitNewlines", sig: "s:string->[]string"},
+	{pkg: "snaps", name: "intPadding", sig: "inserted:int,deleted:int->string,string"},
+	{pkg: "difflib", name: "FormatRangeUnified", sig: "start:int,stop:int->string"},
+}
+
+// ---------------------------------------------------------------------------------------------
+// library table
+
+type libFn struct {
+	lean     string
+	params   []*ty
+	variadic bool // all arguments have type params[0] and are passed as one list
+	res      *ty
+	partial  bool
+}
+
+var libTable = map[string]libFn{
+	"filepath.Base":      {lean: "GoSnaps.fpBase", params: []*ty{tText}, res: tText},
+	"filepath.Ext":       {lean: "GoSnaps.fpExt", params: []*ty{tText}, res: tText},
+	"filepath.Dir":       {lean: "GoSnaps.fpDir", params: []*ty{tText}, res: tText},
+	"filepath.IsAbs":     {lean: "GoSnaps.fpIsAbs", params: []*ty{tText}, res: tBool},
+	"filepath.Join":      {lean: "GoSnaps.fpJoin", params: []*ty{tText}, variadic: true, res: tText},
+	"filepath.Rel":       {lean: "GoSnaps.GoSem.filepathRel", params: []*ty{tText, tText}, res: pairOf(tText, tBool)},
+	"strings.TrimSuffix": {lean: "GoSnaps.trimSuffix", params: []*ty{tText, tText}, res: tText},
+	"strings.HasPrefix":  {lean: "GoSnaps.hasPrefix", params: []*ty{tText, tText}, res: tBool},
+	"bytes.HasPrefix":    {lean: "GoSnaps.hasPrefix", params: []*ty{tText, tText}, res: tBool},
+	"strings.Index":      {lean: "GoSnaps.GoSem.indexInt", params: []*ty{tText, tText}, res: tInt},
+	"bytes.Index":        {lean: "GoSnaps.GoSem.indexInt", params: []*ty{tText, tText}, res: tInt},
+	"strings.Repeat":     {lean: "GoSnaps.GoSem.stringsRepeat", params: []*ty{tText, tInt}, res: tText, partial: true},
+	"strconv.Itoa":       {lean: "GoSnaps.GoSem.itoa", params: []*ty{tInt}, res: tText},
+}
+
+// ---------------------------------------------------------------------------------------------
+// translator
+
+type doneFn struct {
+	spec    *funcSpec
+	params  []*ty
+	res     *ty
+	partial bool
+	text    string
+}
+
+type loopCtx struct {
+	slice, idx string // `for idx, _ := range slice`
+}
+
+type ftr struct {
+	pkg     *pkgInfo
+	consts  map[string]bool // package-level string constants available as Generated.go_<name>
+	muts    map[string]bool
+	idxAsg  map[string]bool // variables that are index-assigned somewhere in the function
+	env     []map[string]*ty
+	sp      *funcSpec
+	funcs   map[string]*doneFn // already translated functions, key pkg+"."+name
+	partial bool
+	loops   []loopCtx
+	tmp     int
+	err     error
+}
+
+type ex struct {
+	s string
+	t *ty
+	p bool // contains an operation that can panic
+}
+
+func (t *ftr) fail(f string, a ...any) ex {
 	if t.err == nil {
 		t.err = fmt.Errorf(f, a...)
 	}
-	return "sorry"
+	return ex{"sorry", tBad, false}
+}
+
+func (t *ftr) push()                 { t.env = append(t.env, map[string]*ty{}) }
+func (t *ftr) pop()                  { t.env = t.env[:len(t.env)-1] }
+func (t *ftr) bind(n string, ty *ty) { t.env[len(t.env)-1][n] = ty }
+func (t *ftr) lookup(n string) *ty {
+	for i := len(t.env) - 1; i >= 0; i-- {
+		if ty, ok := t.env[i][n]; ok {
+			return ty
+		}
+	}
+	return nil
+}
+
+var leanReserved = map[string]bool{"at": true, "from": true, "end": true, "fun": true, "do": true, "then": true, "else": true,
+	"show": true, "have": true, "open": true, "instance": true, "let": true, "in": true, "where": true, "with": true,
+	"match": true, "if": true, "for": true, "return": true, "by": true, "def": true, "theorem": true, "namespace": true,
+	"section": true, "variable": true, "universe": true, "import": true, "mut": true, "try": true, "catch": true,
+	"finally": true, "unless": true, "break": true, "continue": true, "deriving": true, "structure": true, "class": true,
+	"inductive": true, "using": true, "calc": true, "suffices": true, "obtain": true, "Type": true, "Prop": true, "Sort": true}
+
+func leanIdent(n string) string {
+	if leanReserved[n] {
+		return n + "_"
+	}
+	return n
 }
 
 func bytesLit(s string) string {
@@ -39,159 +281,1159 @@ func bytesLit(s string) string {
 	return "([" + strings.Join(p, ", ") + "] : List UInt8)"
 }
 
-var callMap = map[string]string{
-	"filepath.Base": "GoSnaps.fpBase", "filepath.Ext": "GoSnaps.fpExt", "strings.TrimSuffix": "GoSnaps.trimSuffix",
+func (t *ftr) src(n ast.Node) string {
+	var b bytes.Buffer
+	printer.Fprint(&b, t.pkg.fset, n)
+	return b.String()
 }
 
-func (t *ftr) expr(e ast.Expr) string {
+func goType(e ast.Expr) *ty {
+	switch e := e.(type) {
+	case *ast.Ident:
+		switch e.Name {
+		case "string":
+			return tText
+		case "int":
+			return tInt
+		case "bool":
+			return tBool
+		case "byte":
+			return tByte
+		}
+	case *ast.ArrayType:
+		if e.Len == nil {
+			if id, ok := e.Elt.(*ast.Ident); ok {
+				switch id.Name {
+				case "byte":
+					return tText
+				case "string":
+					return tTexts
+				}
+			}
+		}
+	case *ast.StarExpr:
+		if id, ok := e.X.(*ast.Ident); ok && id.Name == "Config" {
+			return tCfg
+		}
+	}
+	return nil
+}
+
+// untyped constant literal (possibly negated / parenthesised)?
+func isUntypedLit(e ast.Expr) bool {
+	switch e := e.(type) {
+	case *ast.BasicLit:
+		return e.Kind == token.INT || e.Kind == token.CHAR
+	case *ast.ParenExpr:
+		return isUntypedLit(e.X)
+	case *ast.UnaryExpr:
+		return e.Op == token.SUB && isUntypedLit(e.X)
+	}
+	return false
+}
+
+func (t *ftr) stringLit(e ast.Expr) (string, bool) {
+	if lit, ok := e.(*ast.BasicLit); ok && lit.Kind == token.STRING {
+		v, err := strconv.Unquote(lit.Value)
+		return v, err == nil
+	}
+	return "", false
+}
+
+func (t *ftr) expr(e ast.Expr) ex { return t.exprH(e, nil) }
+
+// exprH translates e; hint is the type an untyped constant should take.
+func (t *ftr) exprH(e ast.Expr, hint *ty) ex {
 	switch e := e.(type) {
 	case *ast.ParenExpr:
-		return "(" + t.expr(e.X) + ")"
+		x := t.exprH(e.X, hint)
+		return ex{"(" + x.s + ")", x.t, x.p}
 	case *ast.Ident:
+		if ty := t.lookup(e.Name); ty != nil {
+			return ex{leanIdent(e.Name), ty, false}
+		}
+		if p, ok := t.sp.externs[e.Name]; ok {
+			return ex{p.name, p.t, false}
+		}
 		if t.consts[e.Name] {
-			return "GoSnaps.Generated.go_" + e.Name
+			return ex{"GoSnaps.Generated.go_" + e.Name, tText, false}
 		}
 		if e.Name == "true" || e.Name == "false" {
-			return e.Name
+			return ex{e.Name, tBool, false}
 		}
-		return e.Name
+		return t.fail("unknown identifier %s (package variables must be declared as externs)", e.Name)
 	case *ast.SelectorExpr:
-		s := selName(e)
-		switch s {
-		case "c.filename", "c.extension", "c.snapsDir":
-			return s
+		s := t.src(e)
+		if p, ok := t.sp.externs[s]; ok {
+			return ex{p.name, p.t, false}
+		}
+		if id, ok := e.X.(*ast.Ident); ok {
+			if ty := t.lookup(id.Name); ty != nil && ty.k == "cfg" {
+				switch e.Sel.Name {
+				case "filename", "extension", "snapsDir":
+					return ex{leanIdent(id.Name) + "." + e.Sel.Name, tText, false}
+				}
+			}
 		}
 		return t.fail("unsupported selector %s", s)
 	case *ast.BasicLit:
-		if e.Kind == token.STRING {
-			v, _ := strconv.Unquote(e.Value)
-			return bytesLit(v)
+		switch e.Kind {
+		case token.STRING:
+			v, err := strconv.Unquote(e.Value)
+			if err != nil {
+				return t.fail("bad string literal %s", e.Value)
+			}
+			return ex{bytesLit(v), tText, false}
+		case token.INT:
+			n, err := strconv.ParseInt(e.Value, 0, 64)
+			if err != nil {
+				return t.fail("bad integer literal %s", e.Value)
+			}
+			if hint != nil && hint.k == "byte" {
+				if n < 0 || n > 255 {
+					return t.fail("constant %d overflows byte", n)
+				}
+				return ex{fmt.Sprintf("(%d : UInt8)", n), tByte, false}
+			}
+			if hint != nil && hint.k != "int" {
+				return t.fail("integer literal %s used at type %s", e.Value, hint.lean())
+			}
+			return ex{fmt.Sprintf("(%d : Int)", n), tInt, false}
+		case token.CHAR:
+			r, _, _, err := strconv.UnquoteChar(e.Value[1:len(e.Value)-1], '\'')
+			if err != nil {
+				return t.fail("bad char literal %s", e.Value)
+			}
+			if hint == nil || hint.k != "byte" {
+				return t.fail("rune constant %s outside a byte context", e.Value)
+			}
+			if r < 0 || r > 255 {
+				return t.fail("constant %s overflows byte", e.Value)
+			}
+			return ex{fmt.Sprintf("(%d : UInt8)", r), tByte, false}
 		}
 		return t.fail("unsupported literal %s", e.Value)
-	case *ast.BinaryExpr:
-		switch e.Op {
-		case token.ADD:
-			return "(" + t.expr(e.X) + " ++ " + t.expr(e.Y) + ")"
-		case token.EQL:
-			return "(" + t.expr(e.X) + " == " + t.expr(e.Y) + ")"
-		case token.NEQ:
-			return "(" + t.expr(e.X) + " != " + t.expr(e.Y) + ")"
-		case token.LAND:
-			return "(" + t.expr(e.X) + " && " + t.expr(e.Y) + ")"
-		case token.LOR:
-			return "(" + t.expr(e.X) + " || " + t.expr(e.Y) + ")"
-		}
-		return t.fail("unsupported operator %s", e.Op)
 	case *ast.UnaryExpr:
-		if e.Op == token.NOT {
-			return "(!" + t.expr(e.X) + ")"
-		}
-	case *ast.CallExpr:
-		name := selName(e.Fun)
-		if f, ok := callMap[name]; ok {
-			args := make([]string, len(e.Args))
-			for i, a := range e.Args {
-				args[i] = t.expr(a)
+		switch e.Op {
+		case token.NOT:
+			x := t.expr(e.X)
+			if x.t.k != "bool" {
+				return t.fail("! applied to %s", x.t.lean())
 			}
-			return "(" + f + " " + strings.Join(args, " ") + ")"
+			return ex{"(!" + x.s + ")", tBool, x.p}
+		case token.SUB:
+			if lit, ok := e.X.(*ast.BasicLit); ok && lit.Kind == token.INT && (hint == nil || hint.k == "int") {
+				n, err := strconv.ParseInt(lit.Value, 0, 64)
+				if err != nil {
+					return t.fail("bad integer literal %s", lit.Value)
+				}
+				return ex{fmt.Sprintf("(-%d : Int)", n), tInt, false}
+			}
+			x := t.exprH(e.X, hint)
+			if x.t.k != "int" {
+				return t.fail("unary - applied to %s", x.t.lean())
+			}
+			return ex{"(-" + x.s + ")", tInt, x.p}
 		}
-		if name == "strings.ReplaceAll" && len(e.Args) == 3 {
-			if lit, ok := e.Args[1].(*ast.BasicLit); ok {
-				old, _ := strconv.Unquote(lit.Value)
-				if len(old) == 1 {
-					return fmt.Sprintf("(GoSnaps.replaceByte %s %d %s)", t.expr(e.Args[0]), old[0], t.expr(e.Args[2]))
+		return t.fail("unsupported unary operator %s", e.Op)
+	case *ast.BinaryExpr:
+		return t.binary(e)
+	case *ast.CallExpr:
+		return t.call(e)
+	case *ast.IndexExpr:
+		// strings.Split(s, sep)[0]: Split never returns an empty slice, element 0 is the text before
+		// the first separator
+		if c, ok := e.X.(*ast.CallExpr); ok && selName(c.Fun) == "strings.Split" && len(c.Args) == 2 {
+			if lit, ok := e.Index.(*ast.BasicLit); ok && lit.Kind == token.INT && lit.Value == "0" {
+				if sep, ok := t.stringLit(c.Args[1]); ok && sep != "" {
+					s := t.expr(c.Args[0])
+					if s.t.k != "text" {
+						return t.fail("strings.Split applied to %s", s.t.lean())
+					}
+					return ex{"(GoSnaps.GoSem.splitHead " + s.s + " " + bytesLit(sep) + ")", tText, s.p}
 				}
 			}
-			return t.fail("ReplaceAll with a multi-byte pattern")
+			return t.fail("strings.Split(...)[i] is supported only for index 0 and a non-empty literal separator")
 		}
-		return t.fail("unsupported call %s", name)
+		x := t.expr(e.X)
+		i := t.exprH(e.Index, tInt)
+		if i.t.k != "int" {
+			return t.fail("index of type %s", i.t.lean())
+		}
+		var et *ty
+		switch x.t.k {
+		case "text":
+			et = tByte
+		case "texts":
+			et = tText
+		default:
+			return t.fail("indexing a value of type %s", x.t.lean())
+		}
+		t.partial = true
+		return ex{"(← GoSnaps.GoSem.index " + x.s + " " + i.s + ")", et, true}
+	case *ast.SliceExpr:
+		if e.Slice3 {
+			return t.fail("3-index slice")
+		}
+		x := t.expr(e.X)
+		if x.t.k != "text" && x.t.k != "texts" {
+			return t.fail("slicing a value of type %s", x.t.lean())
+		}
+		lo, hi := "(0 : Int)", "(GoSnaps.GoSem.len "+x.s+")"
+		if e.Low != nil {
+			l := t.exprH(e.Low, tInt)
+			if l.t.k != "int" {
+				return t.fail("slice bound of type %s", l.t.lean())
+			}
+			lo = l.s
+		}
+		if e.High != nil {
+			h := t.exprH(e.High, tInt)
+			if h.t.k != "int" {
+				return t.fail("slice bound of type %s", h.t.lean())
+			}
+			hi = h.s
+		}
+		t.partial = true
+		return ex{"(← GoSnaps.GoSem.slice " + x.s + " " + lo + " " + hi + ")", x.t, true}
 	}
 	return t.fail("unsupported expression %T", e)
 }
 
-func (t *ftr) block(list []ast.Stmt, ind string) string {
+func (t *ftr) binary(e *ast.BinaryExpr) ex {
+	var x, y ex
+	if isUntypedLit(e.X) && !isUntypedLit(e.Y) {
+		y = t.expr(e.Y)
+		x = t.exprH(e.X, y.t)
+	} else {
+		x = t.expr(e.X)
+		y = t.exprH(e.Y, x.t)
+	}
+	if t.err != nil {
+		return ex{"sorry", tBad, false}
+	}
+	if !x.t.eq(y.t) {
+		return t.fail("operands of %s have different types: %s, %s", e.Op, x.t.lean(), y.t.lean())
+	}
+	p := x.p || y.p
+	k := x.t.k
+	switch e.Op {
+	case token.ADD:
+		switch k {
+		case "text":
+			return ex{"(" + x.s + " ++ " + y.s + ")", tText, p}
+		case "int":
+			return ex{"(" + x.s + " + " + y.s + ")", tInt, p}
+		}
+	case token.SUB:
+		if k == "int" {
+			return ex{"(" + x.s + " - " + y.s + ")", tInt, p}
+		}
+	case token.EQL, token.NEQ:
+		if k == "text" || k == "int" || k == "byte" || k == "bool" {
+			op := " == "
+			if e.Op == token.NEQ {
+				op = " != "
+			}
+			return ex{"(" + x.s + op + y.s + ")", tBool, p}
+		}
+	case token.LSS, token.GTR, token.LEQ, token.GEQ:
+		if k == "int" || k == "byte" {
+			op := map[token.Token]string{token.LSS: " < ", token.GTR: " > ", token.LEQ: " ≤ ", token.GEQ: " ≥ "}[e.Op]
+			return ex{"(decide (" + x.s + op + y.s + "))", tBool, p}
+		}
+	case token.LAND, token.LOR:
+		if k != "bool" {
+			break
+		}
+		if !y.p {
+			op := " && "
+			if e.Op == token.LOR {
+				op = " || "
+			}
+			return ex{"(" + x.s + op + y.s + ")", tBool, p}
+		}
+		// the right operand can panic: evaluate it only when Go does
+		if e.Op == token.LAND {
+			return ex{"(← (do if " + x.s + " then pure " + y.s + " else pure false))", tBool, true}
+		}
+		return ex{"(← (do if " + x.s + " then pure true else pure " + y.s + "))", tBool, true}
+	}
+	return t.fail("unsupported operator %s on %s", e.Op, x.t.lean())
+}
+
+func (t *ftr) args(name string, call *ast.CallExpr, params []*ty) ([]string, bool, bool) {
+	if len(call.Args) != len(params) {
+		t.fail("%s: %d arguments, expected %d", name, len(call.Args), len(params))
+		return nil, false, false
+	}
+	out := make([]string, len(params))
+	p := false
+	for i, a := range call.Args {
+		x := t.exprH(a, params[i])
+		if t.err != nil {
+			return nil, false, false
+		}
+		if !x.t.eq(params[i]) {
+			t.fail("%s: argument %d has type %s, expected %s", name, i+1, x.t.lean(), params[i].lean())
+			return nil, false, false
+		}
+		out[i] = x.s
+		p = p || x.p
+	}
+	return out, p, true
+}
+
+func (t *ftr) call(e *ast.CallExpr) ex {
+	if e.Ellipsis != token.NoPos {
+		return t.fail("call with ...")
+	}
+	// a call with exactly these arguments declared opaque (made a parameter)
+	if p, ok := t.sp.externs[t.src(e)]; ok {
+		return ex{p.name, p.t, false}
+	}
+	// conversions between string and []byte: identity on List UInt8
+	if at, ok := e.Fun.(*ast.ArrayType); ok {
+		if ty := goType(at); ty != nil && ty.k == "text" && len(e.Args) == 1 {
+			x := t.expr(e.Args[0])
+			if x.t.k != "text" {
+				return t.fail("[]byte(%s)", x.t.lean())
+			}
+			return x
+		}
+		return t.fail("unsupported conversion %s", t.src(e.Fun))
+	}
+	name := selName(e.Fun)
+	if id, ok := e.Fun.(*ast.Ident); ok {
+		// local function value
+		if ty := t.lookup(id.Name); ty != nil {
+			if ty.k != "func" {
+				return t.fail("calling %s of type %s", id.Name, ty.lean())
+			}
+			a, p, ok := t.args(name, e, ty.params)
+			if !ok {
+				return ex{"sorry", tBad, false}
+			}
+			return ex{"(" + leanIdent(id.Name) + " " + strings.Join(a, " ") + ")", ty.res, p}
+		}
+		switch id.Name {
+		case "string":
+			if len(e.Args) == 1 {
+				x := t.expr(e.Args[0])
+				if x.t.k != "text" {
+					return t.fail("string(%s) is supported for []byte only", x.t.lean())
+				}
+				return x
+			}
+		case "len":
+			if len(e.Args) == 1 {
+				x := t.expr(e.Args[0])
+				if x.t.k != "text" && x.t.k != "texts" {
+					return t.fail("len of %s", x.t.lean())
+				}
+				return ex{"(GoSnaps.GoSem.len " + x.s + ")", tInt, x.p}
+			}
+		}
+		// a previously translated function of the same package
+		if d, ok := t.funcs[t.sp.pkg+"."+id.Name]; ok {
+			var lead []string
+			for _, xp := range d.spec.extra {
+				found := false
+				for _, mine := range t.sp.extra {
+					if mine.name == xp.name && mine.t.lean() == xp.t.lean() {
+						found = true
+					}
+				}
+				if !found {
+					return t.fail("call of %s needs parameter %s, which %s does not have", id.Name, xp.name, t.sp.name)
+				}
+				lead = append(lead, xp.name)
+			}
+			a, p, ok := t.args(name, e, d.params)
+			if !ok {
+				return ex{"sorry", tBad, false}
+			}
+			s := "GoSnaps.Generated.Funcs." + id.Name + " " + strings.Join(append(lead, a...), " ")
+			if d.partial {
+				t.partial = true
+				return ex{"(← " + s + ")", d.res, true}
+			}
+			return ex{"(" + s + ")", d.res, p}
+		}
+	}
+	if p, ok := t.sp.extFns[name]; ok {
+		a, pp, ok := t.args(name, e, p.t.params)
+		if !ok {
+			return ex{"sorry", tBad, false}
+		}
+		return ex{"(" + p.name + " " + strings.Join(a, " ") + ")", p.t.res, pp}
+	}
+	switch name {
+	case "strings.ReplaceAll":
+		if len(e.Args) == 3 {
+			if old, ok := t.stringLit(e.Args[1]); ok && len(old) == 1 {
+				s, n := t.expr(e.Args[0]), t.expr(e.Args[2])
+				if s.t.k != "text" || n.t.k != "text" {
+					return t.fail("strings.ReplaceAll argument types")
+				}
+				return ex{fmt.Sprintf("(GoSnaps.replaceByte %s %d %s)", s.s, old[0], n.s), tText, s.p || n.p}
+			}
+		}
+		return t.fail("strings.ReplaceAll is supported for a one-byte literal pattern only")
+	case "strings.Split", "strings.SplitAfter", "strings.Join":
+		if len(e.Args) == 2 {
+			if sep, ok := t.stringLit(e.Args[1]); ok && sep == "\n" {
+				s := t.expr(e.Args[0])
+				switch {
+				case name == "strings.Split" && s.t.k == "text":
+					return ex{"(GoSnaps.lines " + s.s + ")", tTexts, s.p}
+				case name == "strings.SplitAfter" && s.t.k == "text":
+					return ex{"(GoSnaps.GoSem.splitAfterNL " + s.s + ")", tTexts, s.p}
+				case name == "strings.Join" && s.t.k == "texts":
+					return ex{"(GoSnaps.unlines " + s.s + ")", tText, s.p}
+				}
+				return t.fail("%s applied to %s", name, s.t.lean())
+			}
+		}
+		return t.fail("%s is supported for the literal separator \"\\n\" only (and strings.Split(s, sep)[0])", name)
+	}
+	if f, ok := libTable[name]; ok {
+		if f.variadic {
+			var a []string
+			p := false
+			for i, arg := range e.Args {
+				x := t.expr(arg)
+				if t.err != nil {
+					return ex{"sorry", tBad, false}
+				}
+				if !x.t.eq(f.params[0]) {
+					return t.fail("%s: argument %d has type %s", name, i+1, x.t.lean())
+				}
+				a = append(a, x.s)
+				p = p || x.p
+			}
+			return ex{"(" + f.lean + " [" + strings.Join(a, ", ") + "])", f.res, p}
+		}
+		a, p, ok := t.args(name, e, f.params)
+		if !ok {
+			return ex{"sorry", tBad, false}
+		}
+		if f.partial {
+			t.partial = true
+			return ex{"(← " + f.lean + " " + strings.Join(a, " ") + ")", f.res, true}
+		}
+		return ex{"(" + f.lean + " " + strings.Join(a, " ") + ")", f.res, p}
+	}
+	return t.fail("unsupported call %s", t.src(e))
+}
+
+// assignedIn: names assigned (whole) and names index-assigned in the statements
+func assignedIn(n ast.Node) (whole, indexed map[string]bool) {
+	whole, indexed = map[string]bool{}, map[string]bool{}
+	mark := func(l ast.Expr) {
+		switch l := l.(type) {
+		case *ast.Ident:
+			whole[l.Name] = true
+		case *ast.IndexExpr:
+			if id, ok := l.X.(*ast.Ident); ok {
+				indexed[id.Name] = true
+			} else {
+				whole["?"] = true
+			}
+		default:
+			whole["?"] = true
+		}
+	}
+	ast.Inspect(n, func(n ast.Node) bool {
+		switch s := n.(type) {
+		case *ast.AssignStmt:
+			for _, l := range s.Lhs {
+				mark(l)
+			}
+		case *ast.IncDecStmt:
+			mark(s.X)
+		case *ast.RangeStmt:
+			if s.Key != nil {
+				mark(s.Key)
+			}
+			if s.Value != nil {
+				mark(s.Value)
+			}
+		}
+		return true
+	})
+	return
+}
+
+func identsIn(e ast.Expr) map[string]bool {
+	out := map[string]bool{}
+	ast.Inspect(e, func(n ast.Node) bool {
+		if id, ok := n.(*ast.Ident); ok {
+			out[id.Name] = true
+		}
+		return true
+	})
+	return out
+}
+
+func (t *ftr) stmtFail(b *strings.Builder, ind, f string, a ...any) {
+	t.fail(f, a...)
+	b.WriteString(ind + "sorry\n")
+}
+
+func (t *ftr) define(b *strings.Builder, ind, name string, x ex) {
+	if name == "_" {
+		return
+	}
+	if t.muts[name] {
+		fmt.Fprintf(b, "%slet mut %s := %s\n", ind, leanIdent(name), x.s)
+	} else {
+		fmt.Fprintf(b, "%slet %s := %s\n", ind, leanIdent(name), x.s)
+	}
+	t.bind(name, x.t)
+}
+
+func (t *ftr) assign(b *strings.Builder, ind string, s *ast.AssignStmt) {
+	// multi-value: a, b := f(x)
+	if len(s.Lhs) == 2 && len(s.Rhs) == 1 && (s.Tok == token.DEFINE || s.Tok == token.ASSIGN) {
+		x := t.expr(s.Rhs[0])
+		if t.err != nil {
+			b.WriteString(ind + "sorry\n")
+			return
+		}
+		if x.t.k != "pair" {
+			t.stmtFail(b, ind, "two-value assignment from %s", x.t.lean())
+			return
+		}
+		var names []string
+		for _, l := range s.Lhs {
+			id, ok := l.(*ast.Ident)
+			if !ok {
+				t.stmtFail(b, ind, "two-value assignment to %s", t.src(l))
+				return
+			}
+			names = append(names, id.Name)
+		}
+		val := x.s
+		if names[0] != "_" && names[1] != "_" {
+			t.tmp++
+			val = fmt.Sprintf("r_%d", t.tmp)
+			fmt.Fprintf(b, "%slet %s := %s\n", ind, val, x.s)
+		}
+		for i, n := range names {
+			if n == "_" {
+				continue
+			}
+			comp := ex{fmt.Sprintf("%s.%d", val, i+1), []*ty{x.t.a, x.t.b}[i], x.p}
+			if s.Tok == token.DEFINE && t.lookupLocal(n) == nil {
+				t.define(b, ind, n, comp)
+			} else {
+				old := t.lookup(n)
+				if old == nil || !old.eq(comp.t) {
+					t.stmtFail(b, ind, "assignment to %s: unknown variable or type mismatch", n)
+					return
+				}
+				fmt.Fprintf(b, "%s%s := %s\n", ind, leanIdent(n), comp.s)
+			}
+		}
+		return
+	}
+	if len(s.Lhs) != 1 || len(s.Rhs) != 1 {
+		t.stmtFail(b, ind, "unsupported multi-assignment %s", t.src(s))
+		return
+	}
+	// index assignment
+	if ix, ok := s.Lhs[0].(*ast.IndexExpr); ok {
+		id, ok := ix.X.(*ast.Ident)
+		if !ok {
+			t.stmtFail(b, ind, "index assignment to %s", t.src(ix.X))
+			return
+		}
+		xt := t.lookup(id.Name)
+		if xt == nil || (xt.k != "texts" && xt.k != "text") {
+			t.stmtFail(b, ind, "index assignment to %s", id.Name)
+			return
+		}
+		et := tText
+		if xt.k == "text" {
+			et = tByte
+		}
+		inRange, ranged := false, false
+		for _, l := range t.loops {
+			if l.slice == id.Name {
+				ranged = true
+				if k, ok := ix.Index.(*ast.Ident); ok && k.Name == l.idx {
+					inRange = true
+				}
+			}
+		}
+		if ranged && !inRange {
+			t.stmtFail(b, ind, "%s is modified inside a range over it at an index other than the loop index", id.Name)
+			return
+		}
+		i := t.exprH(ix.Index, tInt)
+		v := t.exprH(s.Rhs[0], et)
+		if t.err != nil {
+			b.WriteString(ind + "sorry\n")
+			return
+		}
+		if i.t.k != "int" || !v.t.eq(et) {
+			t.stmtFail(b, ind, "index assignment types: %s", t.src(s))
+			return
+		}
+		nm := leanIdent(id.Name)
+		val := v.s
+		switch s.Tok {
+		case token.ASSIGN:
+		case token.ADD_ASSIGN:
+			if et.k != "text" {
+				t.stmtFail(b, ind, "+= on an element of type %s", et.lean())
+				return
+			}
+			t.partial = true
+			val = "((← GoSnaps.GoSem.index " + nm + " " + i.s + ") ++ " + v.s + ")"
+		default:
+			t.stmtFail(b, ind, "assignment operator %s on an element", s.Tok)
+			return
+		}
+		if inRange && s.Tok == token.ASSIGN {
+			fmt.Fprintf(b, "%s%s := GoSnaps.GoSem.setAt %s %s %s\n", ind, nm, nm, i.s, val)
+		} else {
+			t.partial = true
+			fmt.Fprintf(b, "%s%s := (← GoSnaps.GoSem.setIndex %s %s %s)\n", ind, nm, nm, i.s, val)
+		}
+		return
+	}
+	id, ok := s.Lhs[0].(*ast.Ident)
+	if !ok {
+		t.stmtFail(b, ind, "assignment to %s", t.src(s.Lhs[0]))
+		return
+	}
+	name := id.Name
+	// function literal
+	if fl, ok := s.Rhs[0].(*ast.FuncLit); ok && s.Tok == token.DEFINE {
+		t.funcLit(b, ind, name, fl)
+		return
+	}
+	if s.Tok == token.DEFINE {
+		x := t.expr(s.Rhs[0])
+		if t.err != nil {
+			b.WriteString(ind + "sorry\n")
+			return
+		}
+		if name == "_" {
+			t.stmtFail(b, ind, "_ := …")
+			return
+		}
+		t.define(b, ind, name, x)
+		return
+	}
+	old := t.lookup(name)
+	if old == nil {
+		t.stmtFail(b, ind, "assignment to %s, which is not a local variable", name)
+		return
+	}
+	x := t.exprH(s.Rhs[0], old)
+	if t.err != nil {
+		b.WriteString(ind + "sorry\n")
+		return
+	}
+	if !x.t.eq(old) {
+		t.stmtFail(b, ind, "assignment to %s: %s := %s", name, old.lean(), x.t.lean())
+		return
+	}
+	nm := leanIdent(name)
+	switch {
+	case s.Tok == token.ASSIGN:
+		fmt.Fprintf(b, "%s%s := %s\n", ind, nm, x.s)
+	case s.Tok == token.ADD_ASSIGN && old.k == "text":
+		fmt.Fprintf(b, "%s%s := %s ++ %s\n", ind, nm, nm, x.s)
+	case s.Tok == token.ADD_ASSIGN && old.k == "int":
+		fmt.Fprintf(b, "%s%s := %s + %s\n", ind, nm, nm, x.s)
+	case s.Tok == token.SUB_ASSIGN && old.k == "int":
+		fmt.Fprintf(b, "%s%s := %s - %s\n", ind, nm, nm, x.s)
+	default:
+		t.stmtFail(b, ind, "assignment operator %s on %s", s.Tok, old.lean())
+	}
+}
+
+func (t *ftr) lookupLocal(n string) *ty { return t.env[len(t.env)-1][n] }
+
+// f := func(p T) (r R) { return e }
+func (t *ftr) funcLit(b *strings.Builder, ind, name string, fl *ast.FuncLit) {
+	var ps []param
+	for _, f := range fl.Type.Params.List {
+		pt := goType(f.Type)
+		if pt == nil || len(f.Names) == 0 {
+			t.stmtFail(b, ind, "function literal parameter %s", t.src(f.Type))
+			return
+		}
+		for _, n := range f.Names {
+			ps = append(ps, param{n.Name, pt})
+		}
+	}
+	if fl.Type.Results == nil || len(fl.Type.Results.List) != 1 || len(fl.Type.Results.List[0].Names) > 1 {
+		t.stmtFail(b, ind, "function literal must have one result")
+		return
+	}
+	rt := goType(fl.Type.Results.List[0].Type)
+	ret, ok := fl.Body.List[0].(*ast.ReturnStmt)
+	if rt == nil || len(fl.Body.List) != 1 || !ok || len(ret.Results) != 1 {
+		t.stmtFail(b, ind, "function literal body must be a single `return e`")
+		return
+	}
+	// the body sees its parameters only (no captured variables)
+	saved := t.env
+	t.env = []map[string]*ty{{}}
+	var binders []string
+	var pts []*ty
+	for _, p := range ps {
+		t.bind(p.name, p.t)
+		binders = append(binders, "("+leanIdent(p.name)+" : "+p.t.lean()+")")
+		pts = append(pts, p.t)
+	}
+	x := t.exprH(ret.Results[0], rt)
+	t.env = saved
+	if t.err != nil {
+		b.WriteString(ind + "sorry\n")
+		return
+	}
+	if x.p {
+		t.stmtFail(b, ind, "function literal with an operation that can panic")
+		return
+	}
+	if !x.t.eq(rt) {
+		t.stmtFail(b, ind, "function literal returns %s, declared %s", x.t.lean(), rt.lean())
+		return
+	}
+	if t.muts[name] {
+		t.stmtFail(b, ind, "function variable %s is reassigned", name)
+		return
+	}
+	fmt.Fprintf(b, "%slet %s := fun %s => %s\n", ind, leanIdent(name), strings.Join(binders, " "), x.s)
+	t.bind(name, &ty{k: "func", params: pts, res: rt})
+}
+
+func (t *ftr) block(list []ast.Stmt, ind string, res *ty) string {
 	var b strings.Builder
+	t.push()
+	defer t.pop()
 	for _, st := range list {
+		if t.err != nil {
+			break
+		}
 		switch s := st.(type) {
 		case *ast.AssignStmt:
-			if len(s.Lhs) != 1 || len(s.Rhs) != 1 {
-				b.WriteString(ind + t.fail("multi-assignment") + "\n")
+			t.assign(&b, ind, s)
+		case *ast.IncDecStmt:
+			id, ok := s.X.(*ast.Ident)
+			if !ok || t.lookup(id.Name) == nil || t.lookup(id.Name).k != "int" {
+				t.stmtFail(&b, ind, "%s", t.src(s))
 				continue
 			}
-			name := selName(s.Lhs[0])
-			switch s.Tok {
-			case token.DEFINE:
-				if t.muts[name] {
-					fmt.Fprintf(&b, "%slet mut %s := %s\n", ind, name, t.expr(s.Rhs[0]))
-				} else {
-					fmt.Fprintf(&b, "%slet %s := %s\n", ind, name, t.expr(s.Rhs[0]))
-				}
-			case token.ASSIGN:
-				fmt.Fprintf(&b, "%s%s := %s\n", ind, name, t.expr(s.Rhs[0]))
-			case token.ADD_ASSIGN:
-				fmt.Fprintf(&b, "%s%s := %s ++ %s\n", ind, name, name, t.expr(s.Rhs[0]))
-			default:
-				b.WriteString(ind + t.fail("assignment operator %s", s.Tok) + "\n")
+			op := " + "
+			if s.Tok == token.DEC {
+				op = " - "
 			}
+			fmt.Fprintf(&b, "%s%s := %s%s(1 : Int)\n", ind, leanIdent(id.Name), leanIdent(id.Name), op)
 		case *ast.IfStmt:
-			if s.Init != nil {
-				b.WriteString(ind + t.fail("if with init") + "\n")
-				continue
-			}
-			fmt.Fprintf(&b, "%sif %s then\n%s", ind, t.expr(s.Cond), t.block(s.Body.List, ind+"  "))
-			if s.Else != nil {
-				if eb, ok := s.Else.(*ast.BlockStmt); ok {
-					fmt.Fprintf(&b, "%selse\n%s", ind, t.block(eb.List, ind+"  "))
-				} else {
-					b.WriteString(ind + t.fail("else-if") + "\n")
-				}
-			}
+			b.WriteString(t.ifStmt(s, ind, res))
 		case *ast.ReturnStmt:
-			if len(s.Results) != 1 {
-				b.WriteString(ind + t.fail("return arity") + "\n")
+			switch {
+			case res.k == "pair" && len(s.Results) == 2:
+				x, y := t.exprH(s.Results[0], res.a), t.exprH(s.Results[1], res.b)
+				if t.err == nil && !(x.t.eq(res.a) && y.t.eq(res.b)) {
+					t.stmtFail(&b, ind, "return types: %s", t.src(s))
+					continue
+				}
+				fmt.Fprintf(&b, "%sreturn (%s, %s)\n", ind, x.s, y.s)
+			case res.k != "pair" && len(s.Results) == 1:
+				x := t.exprH(s.Results[0], res)
+				if t.err == nil && !x.t.eq(res) {
+					t.stmtFail(&b, ind, "return type: %s", t.src(s))
+					continue
+				}
+				fmt.Fprintf(&b, "%sreturn %s\n", ind, x.s)
+			default:
+				t.stmtFail(&b, ind, "return arity: %s", t.src(s))
+			}
+		case *ast.ForStmt:
+			b.WriteString(t.forStmt(s, ind, res))
+		case *ast.RangeStmt:
+			b.WriteString(t.rangeStmt(s, ind, res))
+		case *ast.BranchStmt:
+			if s.Label != nil || (s.Tok != token.BREAK && s.Tok != token.CONTINUE) {
+				t.stmtFail(&b, ind, "unsupported statement %s", t.src(s))
 				continue
 			}
-			fmt.Fprintf(&b, "%sreturn %s\n", ind, t.expr(s.Results[0]))
+			fmt.Fprintf(&b, "%s%s\n", ind, s.Tok)
 		default:
-			b.WriteString(ind + t.fail("unsupported statement %T", st) + "\n")
+			t.stmtFail(&b, ind, "unsupported statement %T", st)
 		}
 	}
 	return b.String()
 }
 
-func extractFuncs(snaps *pkgInfo) string {
-	fd := snaps.fn("constructFilename")
-	// signature must be (c *Config, callerFilename, tName string, isStandalone bool) string
-	var names []string
-	for _, f := range fd.Type.Params.List {
-		for _, n := range f.Names {
-			names = append(names, n.Name+":"+selName(f.Type))
+func (t *ftr) ifStmt(s *ast.IfStmt, ind string, res *ty) string {
+	var b strings.Builder
+	if s.Init != nil {
+		t.stmtFail(&b, ind, "if with an init statement")
+		return b.String()
+	}
+	c := t.expr(s.Cond)
+	if t.err == nil && c.t.k != "bool" {
+		t.stmtFail(&b, ind, "condition of type %s", c.t.lean())
+		return b.String()
+	}
+	fmt.Fprintf(&b, "%sif %s then\n%s", ind, c.s, t.block(s.Body.List, ind+"  ", res))
+	switch e := s.Else.(type) {
+	case nil:
+	case *ast.BlockStmt:
+		fmt.Fprintf(&b, "%selse\n%s", ind, t.block(e.List, ind+"  ", res))
+	case *ast.IfStmt:
+		fmt.Fprintf(&b, "%selse\n%s", ind, t.block([]ast.Stmt{e}, ind+"  ", res))
+	default:
+		t.stmtFail(&b, ind, "unsupported else")
+	}
+	return b.String()
+}
+
+// for i := lo; i < hi; i++ { body }
+func (t *ftr) forStmt(s *ast.ForStmt, ind string, res *ty) string {
+	var b strings.Builder
+	init, ok1 := s.Init.(*ast.AssignStmt)
+	cond, ok2 := s.Cond.(*ast.BinaryExpr)
+	post, ok3 := s.Post.(*ast.IncDecStmt)
+	if !ok1 || !ok2 || !ok3 || init.Tok != token.DEFINE || len(init.Lhs) != 1 || len(init.Rhs) != 1 ||
+		cond.Op != token.LSS || post.Tok != token.INC {
+		t.stmtFail(&b, ind, "for loop is not of the form `for i := lo; i < hi; i++`")
+		return b.String()
+	}
+	iv, okA := init.Lhs[0].(*ast.Ident)
+	cv, okB := cond.X.(*ast.Ident)
+	pv, okC := post.X.(*ast.Ident)
+	if !okA || !okB || !okC || iv.Name != cv.Name || iv.Name != pv.Name || iv.Name == "_" {
+		t.stmtFail(&b, ind, "for loop is not of the form `for i := lo; i < hi; i++`")
+		return b.String()
+	}
+	whole, indexed := assignedIn(s.Body)
+	if whole[iv.Name] || whole["?"] {
+		t.stmtFail(&b, ind, "the loop body assigns the loop variable %s", iv.Name)
+		return b.String()
+	}
+	for n := range identsIn(cond.Y) {
+		if whole[n] || indexed[n] {
+			t.stmtFail(&b, ind, "the loop body assigns %s, which occurs in the loop bound", n)
+			return b.String()
 		}
 	}
-	if strings.Join(names, ",") != "c:*Config,callerFilename:string,tName:string,isStandalone:bool" {
-		fail("funcs: constructFilename signature changed: %v", names)
+	lo := t.exprH(init.Rhs[0], tInt)
+	hi := t.exprH(cond.Y, tInt)
+	if t.err == nil && (lo.t.k != "int" || hi.t.k != "int") {
+		t.stmtFail(&b, ind, "loop bounds are not int")
+		return b.String()
 	}
-	t := &ftr{consts: map[string]bool{}, muts: map[string]bool{}}
-	for name, v := range snaps.values {
-		if _, ok := snaps.constString(v); ok {
-			t.consts[name] = true
+	fmt.Fprintf(&b, "%sfor %s in GoSnaps.GoSem.intRange %s %s do\n", ind, leanIdent(iv.Name), lo.s, hi.s)
+	t.push()
+	t.bind(iv.Name, tInt)
+	b.WriteString(t.block(s.Body.List, ind+"  ", res))
+	t.pop()
+	return b.String()
+}
+
+func (t *ftr) rangeStmt(s *ast.RangeStmt, ind string, res *ty) string {
+	var b strings.Builder
+	if s.Tok != token.DEFINE {
+		t.stmtFail(&b, ind, "range without :=")
+		return b.String()
+	}
+	name := func(e ast.Expr) (string, bool) {
+		if e == nil {
+			return "_", true
+		}
+		id, ok := e.(*ast.Ident)
+		if !ok {
+			return "", false
+		}
+		return id.Name, true
+	}
+	k, ok1 := name(s.Key)
+	v, ok2 := name(s.Value)
+	if !ok1 || !ok2 {
+		t.stmtFail(&b, ind, "range variables")
+		return b.String()
+	}
+	xs := t.expr(s.X)
+	if t.err != nil {
+		b.WriteString(ind + "sorry\n")
+		return b.String()
+	}
+	if xs.t.k != "texts" {
+		t.stmtFail(&b, ind, "range over %s (only []string is supported; a string ranges over runes)", xs.t.lean())
+		return b.String()
+	}
+	whole, indexed := assignedIn(s.Body)
+	if whole["?"] || (k != "_" && whole[k]) {
+		t.stmtFail(&b, ind, "the loop body assigns the range index")
+		return b.String()
+	}
+	sliceName := ""
+	if id, ok := s.X.(*ast.Ident); ok {
+		sliceName = id.Name
+		if whole[sliceName] {
+			t.stmtFail(&b, ind, "the loop body reassigns the ranged slice %s", sliceName)
+			return b.String()
+		}
+		if indexed[sliceName] && k == "_" {
+			t.stmtFail(&b, ind, "the loop body modifies the ranged slice %s without a loop index", sliceName)
+			return b.String()
+		}
+	} else {
+		for n := range identsIn(s.X) {
+			if indexed[n] {
+				t.stmtFail(&b, ind, "the loop body modifies %s, which occurs in the range expression", n)
+				return b.String()
+			}
 		}
 	}
-	ast.Inspect(fd.Body, func(n ast.Node) bool {
-		if as, ok := n.(*ast.AssignStmt); ok && as.Tok != token.DEFINE {
-			t.muts[selName(as.Lhs[0])] = true
+	switch {
+	case k == "_" && v == "_":
+		t.stmtFail(&b, ind, "range without variables")
+		return b.String()
+	case k == "_":
+		fmt.Fprintf(&b, "%sfor %s in %s do\n", ind, leanIdent(v), xs.s)
+	case v == "_":
+		fmt.Fprintf(&b, "%sfor %s in GoSnaps.GoSem.intRange (0 : Int) (GoSnaps.GoSem.len %s) do\n", ind, leanIdent(k), xs.s)
+	default:
+		fmt.Fprintf(&b, "%sfor (%s, %s) in GoSnaps.GoSem.enum %s do\n", ind, leanIdent(k), leanIdent(v), xs.s)
+	}
+	t.push()
+	if k != "_" {
+		t.bind(k, tInt)
+	}
+	if v != "_" {
+		t.bind(v, tText)
+	}
+	t.loops = append(t.loops, loopCtx{sliceName, k})
+	b.WriteString(t.block(s.Body.List, ind+"  ", res))
+	t.loops = t.loops[:len(t.loops)-1]
+	t.pop()
+	return b.String()
+}
+
+// aliasing discipline for index-assigned slices (see the header comment)
+func (t *ftr) checkAliasing(fd *ast.FuncDecl, params map[string]bool) {
+	_, indexed := assignedIn(fd.Body)
+	for n := range indexed {
+		if params[n] {
+			t.fail("index assignment to the parameter %s (the effect on the caller's slice is not modelled)", n)
+		}
+	}
+	ast.Inspect(fd.Body, func(nd ast.Node) bool {
+		as, ok := nd.(*ast.AssignStmt)
+		if !ok {
+			return true
+		}
+		for i, r := range as.Rhs {
+			base := r
+			if se, ok := base.(*ast.SliceExpr); ok {
+				base = se.X
+			}
+			if pe, ok := base.(*ast.ParenExpr); ok {
+				base = pe.X
+			}
+			if id, ok := base.(*ast.Ident); ok && indexed[id.Name] {
+				t.fail("the index-assigned slice %s is copied (aliasing is not modelled)", id.Name)
+			}
+			if i < len(as.Lhs) {
+				if id, ok := as.Lhs[i].(*ast.Ident); ok && indexed[id.Name] {
+					if _, isCall := r.(*ast.CallExpr); !isCall {
+						t.fail("the index-assigned slice %s is not defined from a call", id.Name)
+					}
+				}
+			}
 		}
 		return true
 	})
-	body := t.block(fd.Body.List, "  ")
+}
+
+func sigText(t *ftr, fd *ast.FuncDecl) string {
+	var ps, rs []string
+	for _, f := range fd.Type.Params.List {
+		for _, n := range f.Names {
+			ps = append(ps, n.Name+":"+t.src(f.Type))
+		}
+	}
+	if fd.Type.Results != nil {
+		for _, f := range fd.Type.Results.List {
+			if len(f.Names) > 0 {
+				rs = append(rs, "named")
+			}
+			rs = append(rs, t.src(f.Type))
+		}
+	}
+	return strings.Join(ps, ",") + "->" + strings.Join(rs, ",")
+}
+
+func translateFunc(pkg *pkgInfo, sp *funcSpec, consts map[string]bool, funcs map[string]*doneFn) *doneFn {
+	fd := pkg.fn(sp.name)
+	t := &ftr{pkg: pkg, consts: consts, muts: map[string]bool{}, sp: sp, funcs: funcs}
+	if fd.Recv != nil || fd.Type.TypeParams != nil {
+		ffail("funcs: %s: methods and generic functions are not supported", sp.name)
+	}
+	if got := sigText(t, fd); got != sp.sig {
+		ffail("funcs: %s signature changed: %s (expected %s)", sp.name, got, sp.sig)
+	}
+	t.push()
+	var binders []string
+	for _, p := range sp.extra {
+		binders = append(binders, "("+p.name+" : "+p.t.lean()+")")
+	}
+	var pts []*ty
+	pnames := map[string]bool{}
+	for _, f := range fd.Type.Params.List {
+		pt := goType(f.Type)
+		if pt == nil {
+			ffail("funcs: %s: unsupported parameter type %s", sp.name, t.src(f.Type))
+		}
+		for _, n := range f.Names {
+			t.bind(n.Name, pt)
+			pnames[n.Name] = true
+			pts = append(pts, pt)
+			binders = append(binders, "("+leanIdent(n.Name)+" : "+pt.lean()+")")
+		}
+	}
+	var rts []*ty
+	for _, f := range fd.Type.Results.List {
+		rt := goType(f.Type)
+		if rt == nil {
+			ffail("funcs: %s: unsupported result type %s", sp.name, t.src(f.Type))
+		}
+		rts = append(rts, rt)
+	}
+	var res *ty
+	switch len(rts) {
+	case 1:
+		res = rts[0]
+	case 2:
+		res = pairOf(rts[0], rts[1])
+	default:
+		ffail("funcs: %s: %d results", sp.name, len(rts))
+	}
+	whole, indexed := assignedIn(fd.Body)
+	for n := range indexed {
+		t.muts[n] = true
+	}
+	// a variable is `let mut` when it is assigned other than by its defining `:=`
+	ast.Inspect(fd.Body, func(n ast.Node) bool {
+		switch s := n.(type) {
+		case *ast.AssignStmt:
+			if s.Tok != token.DEFINE {
+				for _, l := range s.Lhs {
+					if id, ok := l.(*ast.Ident); ok {
+						t.muts[id.Name] = true
+					}
+				}
+			}
+		case *ast.IncDecStmt:
+			if id, ok := s.X.(*ast.Ident); ok {
+				t.muts[id.Name] = true
+			}
+		}
+		return true
+	})
+	_ = whole
+	for n := range t.muts {
+		if pnames[n] {
+			ffail("funcs: %s assigns its parameter %s", sp.name, n)
+		}
+	}
+	t.checkAliasing(fd, pnames)
+	// the last statement must be a return (every path of a Go function with results ends in one)
+	if n := len(fd.Body.List); n == 0 {
+		ffail("funcs: %s has an empty body", sp.name)
+	} else if _, ok := fd.Body.List[n-1].(*ast.ReturnStmt); !ok {
+		ffail("funcs: %s does not end with a return statement", sp.name)
+	}
+	body := t.block(fd.Body.List, "  ", res)
 	if t.err != nil {
-		fail("funcs: constructFilename uses a construct outside the translated subset: %v", t.err)
+		ffail("funcs: %s uses a construct outside the translated subset: %v", sp.name, t.err)
 	}
 	var b strings.Builder
-	b.WriteString("-- GENERATED by tools/extract: transliteration of pure functions of snaps/snapshot.go into Lean do-notation.\n")
-	b.WriteString("import GoSnaps.Path\nset_option linter.unusedVariables false\nnamespace GoSnaps.Generated.Funcs\n\n")
-	b.WriteString("def constructFilename (c : GoSnaps.Cfg) (callerFilename tName : List UInt8) (isStandalone : Bool) : List UInt8 := Id.run do\n")
+	pos := pkg.fset.Position(fd.Pos())
+	fmt.Fprintf(&b, "-- %s (%s/%s)\n", sp.name, sp.pkg, pos.Filename[strings.LastIndex(pos.Filename, "/")+1:])
+	if t.partial {
+		rl := res.lean()
+		if strings.Contains(rl, " ") && !strings.HasPrefix(rl, "(") {
+			rl = "(" + rl + ")"
+		}
+		fmt.Fprintf(&b, "def %s %s : Option %s := do\n", sp.name, strings.Join(binders, " "), rl)
+	} else {
+		fmt.Fprintf(&b, "def %s %s : %s := Id.run do\n", sp.name, strings.Join(binders, " "), res.lean())
+	}
 	b.WriteString(body)
+	return &doneFn{spec: sp, params: pts, res: res, partial: t.partial, text: b.String()}
+}
+
+// funcsErr: a function of the list could not be transliterated.  The failure is LOCAL: the function
+// is left out of Funcs.lean (so exactly the `*_tied` theorems about it stop compiling) and the reason
+// is recorded in facts.json; the other functions are still generated.
+type funcsErr string
+
+func ffail(f string, a ...any) {
+	panic(funcsErr(fmt.Sprintf(f, a...)))
+}
+
+func tryTranslate(pkg *pkgInfo, sp *funcSpec, consts map[string]bool, funcs map[string]*doneFn) (d *doneFn, reason string) {
+	defer func() {
+		if r := recover(); r != nil {
+			if fe, ok := r.(funcsErr); ok {
+				d, reason = nil, string(fe)
+				return
+			}
+			panic(r)
+		}
+	}()
+	if _, ok := pkg.funcs[sp.name]; !ok {
+		return nil, "function " + sp.name + " not found in package " + sp.pkg
+	}
+	return translateFunc(pkg, sp, consts, funcs), ""
+}
+
+func extractFuncs(pkgs map[string]*pkgInfo, F *facts) string {
+	snaps := pkgs["snaps"]
+	consts := map[string]bool{}
+	for name, v := range snaps.values {
+		if _, ok := snaps.constString(v); ok {
+			consts[name] = true
+		}
+	}
+	funcs := map[string]*doneFn{}
+	var b strings.Builder
+	b.WriteString("-- GENERATED by tools/extract (funcs.go): statement-by-statement transliteration of Go functions into Lean\n")
+	b.WriteString("-- do-notation.  `Id.run do` = total function; `Option … := do` = `none` when the Go function panics.\n")
+	b.WriteString("-- Do not edit: regenerated from the current sources on every run.\n")
+	b.WriteString("import GoSnaps.Path\nimport GoSnaps.GoSem\nset_option linter.unusedVariables false\nnamespace GoSnaps.Generated.Funcs\n")
+	F.Funcs = map[string]string{}
+	F.FuncsFailed = map[string]string{}
+	for i := range funcSpecs {
+		sp := &funcSpecs[i]
+		pkg := pkgs[sp.pkg]
+		c := consts
+		if sp.pkg != "snaps" {
+			c = map[string]bool{}
+		}
+		d, reason := tryTranslate(pkg, sp, c, funcs)
+		if d == nil {
+			fmt.Fprintf(os.Stderr, "extract: %s NOT transliterated: %s\n", sp.name, reason)
+			b.WriteString("\n-- NOT TRANSLITERATED: " + sp.name + ": " + strings.ReplaceAll(reason, "\n", " ") + "\n")
+			F.FuncsFailed[sp.name] = reason
+			continue
+		}
+		funcs[sp.pkg+"."+sp.name] = d
+		b.WriteString("\n" + d.text)
+		F.Funcs[sp.name] = d.text
+	}
 	b.WriteString("\nend GoSnaps.Generated.Funcs\n")
 	return b.String()
 }
